@@ -3,12 +3,14 @@
   Core Lean only (no Mathlib) so that it links as `lean_exe drv`.
 -/
 import Cog.Drv.OMapDrv
+import Cog.Drv.VirDrv
 open Cog.Drv
 
 def handle (line : String) : String :=
   let line := line.trimAscii.toString
   match line.splitOn " " with
   | "omap" :: rest => omapLine (" ".intercalate rest)
+  | "vir" :: rest => virLine (" ".intercalate rest)
   | _ => "bad-request"
 
 partial def loop (h : IO.FS.Stream) (out : IO.FS.Stream) : IO Unit := do
